@@ -111,3 +111,25 @@ func VerifC16_CloseWithWatcher() {
 	verif_Quiesce()
 	verif_Assert(verif_LiveThreads() <= 0, "the pubsub watcher goroutine exits")
 }
+
+// C16 with an externally owned topic whose pubsub has already been stopped by
+// its owner (Subscription.Cancel is then a silent no-op, as in the library):
+// Close still returns and the watcher exits — it is the watch context's
+// cancellation that must end the watcher, not the subscription.
+func VerifC16_CloseAfterPubsubStopped() {
+	self, sender := c09pid(0x5e), c09pid(0xaa)
+	topic := &pubsub.Topic{}
+	r, err := NewReceiver(c09host{id: self}, "", WithTopic(topic))
+	verif_Assume(err == nil)
+	if verif_Bool("messageBeforeStop") {
+		verif_PubsubDeliver(r.topicSub, []byte(sender), c09wire(message.Message{Cid: c09cid(21)}))
+		_, _ = r.Next(context.Background())
+	}
+	verif_Quiesce()
+	verif_PubsubStopped(true)
+	verif_Assert(r.Close() == nil, "Close returns although the subscription can no longer be cancelled")
+	verif_Reach("closed")
+	verif_Assert(r.Close() == nil, "Close can be repeated")
+	verif_Quiesce()
+	verif_Assert(verif_LiveThreads() <= 0, "the pubsub watcher goroutine exits")
+}
